@@ -101,8 +101,9 @@ def all_interleavings(sc, limit=400):
 
 
 def small_scenario(rng):
+    k = rng.randrange(2)
     while True:
-        sc = scorr.gen_scenario(rng)
+        sc = scorr.gen_clean_scenario(rng) if k else scorr.gen_scenario(rng)
         if len(sc["sims"]) <= 3 and sc["until"] <= 3 and not scorr.nonuniform_cutoff(sc, False):
             sc["sparse_persistent"] = False      # API-compliant simulators only
             return sc
